@@ -36,7 +36,7 @@ func (r *traceRec) OnData(b buffer.IoBuffer) api.FilterStatus {
 	r.mu.Unlock()
 	return api.Continue
 }
-func (r *traceRec) OnNewConnection() api.FilterStatus                         { return api.Continue }
+func (r *traceRec) OnNewConnection() api.FilterStatus                        { return api.Continue }
 func (r *traceRec) InitializeReadFilterCallbacks(cb api.ReadFilterCallbacks) {}
 func (r *traceRec) OnEvent(ev api.ConnectionEvent) {
 	if ev.IsClose() {
